@@ -55,8 +55,9 @@ func c19decoders() []c19decoder {
 }
 
 type c19input struct {
-	stage string // "ok" or the failure stage
-	b     []byte
+	stage    string // "ok" or the failure stage
+	b        []byte
+	baseline string // deep hash of the value a fresh destination got before any history ran
 }
 
 // c19pool builds valid and invalid inputs for one decoder kind.
@@ -70,7 +71,7 @@ func c19pool(r *mon.Rand, kind refcose.Kind, n int) []c19input {
 		}
 	}
 	for _, v := range valid {
-		pool = append(pool, c19input{"ok", v})
+		pool = append(pool, c19input{stage: "ok", b: v})
 	}
 	for vi, v := range valid {
 		if vi >= n {
@@ -94,16 +95,16 @@ func c19pool(r *mon.Rand, kind refcose.Kind, n int) []c19input {
 			if ok {
 				func() {
 					defer func() { recover() }()
-					pool = append(pool, c19input{stage, cl.Seal()})
+					pool = append(pool, c19input{stage: stage, b: cl.Seal()})
 				}()
 			}
 		}
 		// generic failures
-		pool = append(pool, c19input{"truncated", v[:len(v)/2]}, c19input{"trailing", append(append([]byte{}, v...), 0)}, c19input{"empty", []byte{}})
+		pool = append(pool, c19input{stage: "truncated", b: v[:len(v)/2]}, c19input{stage: "trailing", b: append(append([]byte{}, v...), 0)}, c19input{stage: "empty", b: []byte{}})
 		if len(v) > 0 {
 			bad := append([]byte{}, v...)
 			bad[0] ^= 0x20
-			pool = append(pool, c19input{"prefix", bad})
+			pool = append(pool, c19input{stage: "prefix", b: bad})
 		}
 		isMsg := kind == refcose.KSign1Tagged || kind == refcose.KSign1Untagged || kind == refcose.KSignTagged || kind == refcose.KSignature
 		if !isMsg {
@@ -242,6 +243,7 @@ func runC19(c *Ctx) {
 			}
 			if err == nil {
 				p.stage = "ok"
+				p.baseline = mon.DeepHashValue(dst)
 				oks = append(oks, p)
 			} else {
 				if p.stage == "ok" {
@@ -291,6 +293,10 @@ func runC19(c *Ctx) {
 				rec.Event(d.name)
 				if err != nil {
 					shape = append(shape, in.stage)
+					if in.stage == "ok" {
+						rec.Violate("history-dependent", d.name+"/used-refuses", "bytes accepted into a fresh destination are refused into a previously used one: "+err.Error()+" (history shape "+strings.Join(shape, ",")+")", input)
+						return
+					}
 					if mon.DeepHash(dst) != before {
 						rec.Violate("failed-decode-modified-destination", d.name+"/"+in.stage, "a failing decode changed the destination (history shape "+strings.Join(shape, ",")+")", input)
 						return
@@ -303,6 +309,10 @@ func runC19(c *Ctx) {
 				fresh := d.fresh()
 				if e := d.decode(fresh, exact(in.b)); e != nil {
 					rec.Violate("history-dependent", d.name+"/fresh-refuses", "bytes accepted into a used destination are refused into a fresh one: "+e.Error(), input)
+					return
+				}
+				if in.baseline != "" && mon.DeepHashValue(fresh) != in.baseline {
+					rec.Violate("history-dependent", d.name+"/global-state", "decoding the same bytes into a fresh destination gives another value than it did before the histories ran: some state outlives a decode (history shape "+strings.Join(shape, ",")+")", input)
 					return
 				}
 				if mon.DeepHashValue(dst) != mon.DeepHashValue(fresh) {
@@ -406,7 +416,7 @@ func c19edit(dst any, r *mon.Rand) string {
 		m[int64(99)] = "stale"
 	}
 	editHeaders := func(h *cose.Headers) string {
-		switch r.Intn(3) {
+		switch r.Intn(4) {
 		case 0:
 			editMap(h.Protected)
 			editMap(h.Unprotected)
@@ -415,9 +425,21 @@ func c19edit(dst any, r *mon.Rand) string {
 			h.Protected = cose.ProtectedHeader{int64(1): cose.AlgorithmPS512, "stale": true}
 			h.Unprotected = cose.UnprotectedHeader{int64(4): []byte("stale")}
 			return "maps-replaced"
-		default:
+		case 2:
 			h.Protected, h.Unprotected = nil, nil
 			return "maps-nil"
+		default:
+			// the application assembles something new in the same variable
+			if h.Protected == nil {
+				h.Protected = cose.ProtectedHeader{}
+			}
+			if h.Unprotected == nil {
+				h.Unprotected = cose.UnprotectedHeader{}
+			}
+			h.Protected[int64(5)] = []byte("iv")
+			h.Unprotected[int64(6)] = []byte("piv")
+			h.Protected[int64(1)] = cose.AlgorithmES256
+			return "iv-and-partial-iv-across-buckets"
 		}
 	}
 	switch v := dst.(type) {
